@@ -241,7 +241,7 @@ class MemoryUserManager(AbstractUserManager):
 
     def __init__(self, users, *args, **kwargs):
         super().__init__(*args, **kwargs)
-        self.users = users or [User()]
+        self.users = [User()] if users is None else users
         self.available_connections = dict((user, AvailableConnections(user.maximum_connections)) for user in self.users)
 
     async def get_user(self, login):
